@@ -16,7 +16,7 @@ import time
 HERE = os.path.dirname(os.path.abspath(__file__))
 VERIF = os.path.dirname(HERE)
 CACHE = os.environ.get('CAPCHECK_CACHE', os.path.join(VERIF, '.cache'))
-TOOL_VERSION = '11'
+TOOL_VERSION = '12'
 
 CONTAINERS = ['lru_cache', 'mru_cache', 'rr_cache', 'fifo_cache', 'lfu_cache', 'lfuda_cache',
               'tlru_cache', 'utlru_cache', 'ut_map', 'ut_set']
@@ -281,6 +281,40 @@ class Program:
         self.mutex_specs = []
         want = 'cappuccino::thread_safe::' + ts
         self.free_functions = {}     # id -> FunctionDecl node with a body (namespace cappuccino and nested namespaces; template instantiations)
+        self.constants = {}          # id -> ('int', v) / ('bool', v): constexpr / const variables with a literal initialiser
+
+        def fold(n):
+            while True:
+                k = n.get('kind')
+                if k == 'IntegerLiteral':
+                    try:
+                        return ('int', int(n.get('value')))
+                    except (TypeError, ValueError):
+                        return None
+                if k == 'CXXBoolLiteralExpr':
+                    return ('bool', bool(n.get('value')))
+                inner = [c for c in n.get('inner', []) or [] if isinstance(c, dict) and c.get('kind')]
+                if k in ('ImplicitCastExpr', 'InitListExpr', 'ConstantExpr', 'ParenExpr', 'CXXFunctionalCastExpr', 'CXXStaticCastExpr',
+                         'ExprWithCleanups') and len(inner) == 1:
+                    n = inner[0]
+                    continue
+                return None
+
+        def constants(n):
+            for c in n.get('inner', []) or []:
+                if not isinstance(c, dict):
+                    continue
+                k = c.get('kind')
+                if k == 'VarDecl' and (c.get('constexpr') or c.get('type', {}).get('qualType', '').startswith('const ')):
+                    init = [x for x in c.get('inner', []) or [] if isinstance(x, dict) and x.get('kind') and not x['kind'].endswith('Comment')]
+                    v = fold(init[-1]) if init else None
+                    if v is not None:
+                        self.constants[c['id']] = v
+                elif k in ('NamespaceDecl', 'CXXRecordDecl', 'ClassTemplateDecl', 'ClassTemplateSpecializationDecl'):
+                    constants(c)
+        for o in objs:
+            if o.get('kind') in ('NamespaceDecl', 'CXXRecordDecl', 'ClassTemplateDecl', 'ClassTemplateSpecializationDecl'):
+                constants(o)
 
         def collect(ns):
             for c in ns.get('inner', []) or []:
